@@ -6,16 +6,19 @@ spec/Dep/DepImpl.tla     implementation-shaped model of parsec_update_deps_with_
 spec/Dep/ReadyTrace.tla  property-level validation of recorded inv/res histories of the real functions
 
 1. TLC: Ready satisfies ExactlyOnce; DepImpl refines Ready (PROPERTY Refines + invariants) for every scenario (task
-   classes with data / collection / conditional / control / control-gather flows, both modes); two seeded model
-   defects must be detected (sensitivity self-test).
+   classes with data / collection / conditional / control / control-gather flows and flows with an ORDERED LIST of
+   guarded input deps whose guards overlap, both modes); three seeded model defects must be detected (sensitivity
+   self-test).
 2. The TLC state graph of every scenario gives all schedules at yield-point granularity; each is replayed on the
    real functions under the cooperative scheduler, real return values are compared with the model's (divergences).
 3. The harness' own explorer runs every interleaving of the real code (<= 3 threads), random schedules for 8
-   threads, free-running stress for 16 threads (rounds over 32 task instances each).
+   threads, free-running stress for 16 threads (rounds over 32 task instances each); every release ORDER of larger
+   task classes (<= 5 inputs, instances k = 0 and k > 0) is run sequentially (mode perms).
 4. Verdict: every recorded history is validated by TLC against ReadyTrace.
 """
 import concurrent.futures
 import json
+import math
 import os
 import re
 
@@ -26,16 +29,35 @@ META = {
     "text": "TLC proves that the implementation-shaped model of the counter (read, CAS 0->goal-1, fetch_dec) and mask "
             "(read IN_DONE, fetch_or) dependency updates refines the abstract 'ready exactly when the last input is "
             "released' object for bounded task classes (data, data-collection, conditional, control and control-gather "
-            "flows); every interleaving of those scenarios at yield-point granularity is replayed on the real "
+            "flows, flows with an ordered list of guarded input deps - task / collection / NEW / NULL - whose guards "
+            "overlap: the first dep whose guard holds decides; the model walks dep_in[] like "
+            "parsec_check_IN_dependencies_with_mask/_with_counter); every interleaving of those scenarios at yield-point granularity is replayed on the real "
             "parsec_update_deps_with_counter/_with_mask driving a test-owned parsec_task_class_t, plus random schedules "
-            "and free-running stress up to 16 releasers; each recorded history is validated by TLC against ReadyTrace.tla.",
+            "and free-running stress up to 16 releasers, and every sequential release order of classes with up to 5 "
+            "inputs; each recorded history is validated by TLC against ReadyTrace.tla.",
     "note": "Exhaustive interleavings for 2-4 concurrent releasers (goal 2-4, and 2 releases per thread), sampled for 8 "
-            "and 16. One dependency word per execution; find_deps (array / hash lookup) is not part of this check. "
+            "and 16. Guards are constants or k > 0 / k == 0 of a one-parameter instance (k = 0 and k > 0 both run). "
+            "One dependency word per execution; find_deps (array / hash lookup) is not part of this check. "
             "x86-64 TSO; trusted: TLC, vsched, ndjson recorder.",
     "technique": "TLA+ refinement (TLC) + schedule replay on real code + trace validation (TLC)",
 }
 
-# flows: ptgpp-level description of the task class (see DepImpl.tla); threads: list of op lists, op = (flow, input id)
+# flows: JDF-level description of the input side of the task class (see DepImpl.tla), one token per flow:
+#   D:<dep>,<dep>,...   data flow      K:<dep>,...   control flow         the `<-` lines of the flow, IN ORDER
+#   dep = <guard><source>[gather count]    guard  - absent | 1 true | 0 false | p (k > 0) | z (k == 0), k = "k" of the
+#   scenario (default 1);  source  t predecessor task | c data collection | n NEW | u NULL
+#   one-word kinds: T = D:-t   C = D:-c   Q1 = D:1t,0c   Q0 = D:0t,1c   K = K:-t   K1 = K:1t   X = K:0t   G<n> = K:-t<n>
+#   W = D: (WRITE flow typed by <- NEW)
+# threads: list of op lists, op = (flow, input id)
+LEGACY = {"T": "D:-t", "C": "D:-c", "Q1": "D:1t,0c", "Q0": "D:0t,1c", "K": "K:-t", "K1": "K:1t", "X": "K:0t", "W": "D:"}
+# task classes whose flows have several input deps with OVERLAPPING guards (the first one whose guard holds decides):
+#   1  task selected (k > 0), then an unguarded collection dep          `A <- (k>0) ? A T(k-1)` / `<- dataA(k)`
+#   2  first guard false, second (task) selected, third = collection with a true guard (three deps)
+#   3  k > 0: first false, collection selected, unguarded task dep after it;  k = 0: the first (task) selected
+#   4  NEW / NULL selected, task dep after it           5  control: false, (k > 0), [two more in OVC]
+#   6  WRITE flow typed by <- NEW (mask) / second control flow
+OVM = ["D:pt,-c", "D:0t,1t,1c", "D:zt,pc,-t", "D:1n,-t", "K:0t,pt", "W"]
+OVC = ["D:pt,-c", "D:0t,1t,1c", "D:zt,pc,-t", "D:1u,-t", "K:0t,pt"]
 C2 = {"name": "c2", "mode": "counter", "flows": ["T", "T"], "threads": [[(1, 1)], [(2, 2)]]}
 SCENARIOS = [
     {"name": "cg3", "mode": "counter", "flows": ["G3"], "threads": [[(1, 1)], [(1, 2)], [(1, 3)]]},
@@ -43,61 +65,114 @@ SCENARIOS = [
     {"name": "cseq", "mode": "counter", "flows": ["T", "K", "T", "G1"], "threads": [[(1, 1), (2, 2)], [(3, 3), (4, 4)]]},
     {"name": "cpart", "mode": "counter", "flows": ["T", "G2"], "threads": [[(1, 1)], [(2, 2)]]},
     {"name": "c4", "mode": "counter", "flows": ["T", "K", "T", "K"], "threads": [[(1, 1)], [(2, 2)], [(3, 3)], [(4, 4)]], "fuse": True},
+    {"name": "cov3", "mode": "counter", "k": 1, "flows": OVC, "threads": [[(1, 1)], [(2, 2), (5, 3)]]},
     {"name": "min3", "mode": "mask", "flows": ["T", "C", "Q1", "X", "K1", "Q0"], "threads": [[(1, 1)], [(3, 2)], [(5, 3)]]},
     {"name": "mseq", "mode": "mask", "flows": ["T", "C", "T", "K"], "threads": [[(1, 1), (3, 2)], [(4, 3)]]},
     {"name": "mpart", "mode": "mask", "flows": ["T", "T", "X", "K"], "threads": [[(1, 1)], [(4, 3)]]},
     {"name": "m4", "mode": "mask", "flows": ["T", "Q0", "K", "T", "K1"], "threads": [[(1, 1)], [(3, 2)], [(4, 3)], [(5, 4)]], "fuse": True},
+    {"name": "mov3", "mode": "mask", "k": 1, "flows": OVM, "threads": [[(1, 1)], [(2, 2)], [(5, 3)]]},
+    {"name": "mov2", "mode": "mask", "k": 0, "flows": OVM, "threads": [[(2, 1)], [(3, 2)]]},
 ]
 SCENARIOS_THOROUGH = [
     {"name": "cg4", "mode": "counter", "flows": ["G2", "T", "Q1", "C"], "threads": [[(1, 1)], [(1, 2)], [(2, 3)], [(3, 4)]]},
     {"name": "cseq3", "mode": "counter", "flows": ["G3", "T", "T", "X"], "threads": [[(1, 1), (2, 4)], [(1, 2), (3, 5)], [(1, 3)]]},
     {"name": "mseq3", "mode": "mask", "flows": ["T", "K", "Q1", "C", "T"], "threads": [[(1, 1), (2, 2)], [(3, 3)], [(5, 4)]]},
     {"name": "m4u", "mode": "mask", "flows": ["T", "K", "T", "K"], "threads": [[(1, 1)], [(2, 2)], [(3, 3)], [(4, 4)]]},
+    {"name": "mov4", "mode": "mask", "k": 3, "flows": OVM + ["D:pt,zt,1c"], "threads": [[(1, 1)], [(2, 2)], [(5, 3)], [(7, 4)]], "fuse": True},
+    {"name": "cov4", "mode": "counter", "k": 3, "flows": OVC + ["K:pt,0t,zt2"], "threads": [[(1, 1)], [(2, 2)], [(5, 3)], [(6, 4)]], "fuse": True},
+    {"name": "cov2", "mode": "counter", "k": 0, "flows": OVC, "threads": [[(2, 1)], [(3, 2)]]},
+    {"name": "cov3t", "mode": "counter", "k": 2, "flows": OVC, "threads": [[(1, 1)], [(2, 2)], [(5, 3)]]},
+    {"name": "cov3g", "mode": "counter", "k": 1, "flows": ["D:pt,-c", "K:pt,1t,zt2"], "threads": [[(1, 1)], [(2, 2)], [(2, 3)]]},
+    {"name": "cov3z", "mode": "counter", "k": 0, "flows": ["D:pt,-c", "K:pt,1t,zt2"], "threads": [[(2, 1)], [(2, 2)], [(2, 3)]]},
 ]
 RANDOM = [
     {"name": "c8r", "mode": "counter", "flows": ["G4", "T", "Q1", "C", "K", "K1", "X"],
      "threads": [[(1, 1)], [(1, 2)], [(1, 3)], [(1, 4)], [(2, 5)], [(3, 6)], [(5, 7)], [(6, 8)]]},
-    {"name": "m8r", "mode": "mask", "flows": ["T", "T", "Q1", "C", "K", "K1", "X", "T", "K", "T"],
+    {"name": "m8r", "mode": "mask", "flows": ["T", "T", "Q1", "C", "K", "K1", "X", "T", "K", "D:pt,-c"],
      "threads": [[(1, 1)], [(2, 2)], [(3, 3)], [(5, 4)], [(6, 5)], [(8, 6)], [(9, 7)], [(10, 8)]]},
 ]
 STRESS = [
     {"name": "c16", "mode": "counter", "flows": ["G8", "T", "T", "Q1", "C", "K", "K", "K1", "X", "T", "Q0"],
      "threads": [[(1, i)] for i in range(1, 9)] + [[(2, 9)], [(3, 10)], [(4, 11)], [(6, 12)], [(7, 13)], [(8, 14)], [(10, 15)]]},
-    {"name": "m16", "mode": "mask", "flows": ["T"] * 6 + ["C", "Q0", "X"] + ["K"] * 5 + ["Q1", "K1", "T", "T", "T"],
+    {"name": "m16", "mode": "mask", "flows": ["T"] * 6 + ["C", "Q0", "X"] + ["K"] * 5 + ["Q1", "K1", "T", "T", "D:1t,-c"],
      "threads": [[(f, i + 1)] for i, f in enumerate([1, 2, 3, 4, 5, 6, 10, 11, 12, 13, 14, 15, 16, 17, 18, 19])]},
     {"name": "cpart8", "mode": "counter", "flows": ["G8", "T"], "threads": [[(1, i)] for i in range(1, 9)]},
 ]
+# every release order, sequentially (one thread; "ops" = the inputs, the harness permutes them)
+PERMS = [
+    {"name": "pm1", "mode": "mask", "k": 1, "flows": OVM + ["D:pt,zt,1c", "T"], "ops": [(1, 1), (2, 2), (5, 3), (7, 4), (8, 5)]},
+    {"name": "pm0", "mode": "mask", "k": 0, "flows": OVM + ["D:pt,zt,1c", "T"], "ops": [(2, 1), (3, 2), (7, 3), (8, 4)]},
+    {"name": "pmd", "mode": "mask", "k": 5, "flows": ["D:pt,-c", "T", "T"], "ops": [(1, 1), (2, 2), (3, 3)]},        # seeded/C07/2/demo.c
+    {"name": "pmd0", "mode": "mask", "k": 0, "flows": ["D:pt,-c", "T", "T"], "ops": [(2, 1), (3, 2)]},
+    {"name": "pc1", "mode": "counter", "k": 1, "flows": OVC + ["K:pt,1t,zt2"], "ops": [(1, 1), (2, 2), (5, 3), (6, 4), (6, 5)]},
+    {"name": "pc0", "mode": "counter", "k": 0, "flows": OVC + ["K:pt,1t,zt2"], "ops": [(2, 1), (3, 2), (6, 3), (6, 4), (6, 5)]},
+    {"name": "pcd", "mode": "counter", "k": 5, "flows": ["D:pt,-c", "T", "T"], "ops": [(1, 1), (2, 2), (3, 3)]},
+    {"name": "pcp", "mode": "counter", "k": 1, "flows": OVC, "ops": [(1, 1), (5, 3)]},                             # partial
+]
 
 
-def need_of(kind):
-    if kind in ("T", "Q1", "K", "K1"):
-        return 1
-    if kind in ("C", "Q0", "X"):
-        return 0
-    assert kind[0] == "G"
-    return int(kind[1:])
+def parse_flow(tok):
+    """flow token -> {"ctl": bool, "deps": [{"g", "src", "n"}]} (the record DepImpl.tla and the harness work on)"""
+    if tok[0] == "G" and tok[1:].isdigit():
+        tok = "K:-t" + tok[1:]
+    tok = LEGACY.get(tok, tok)
+    m = re.fullmatch(r"([DK]):((?:[-10pz][tcnu]\d*)(?:,[-10pz][tcnu]\d*)*)?", tok)
+    if not m:
+        raise ValueError("bad flow %r" % tok)
+    deps = []
+    for d in (m.group(2) or "").split(","):
+        if d:
+            deps.append({"g": d[0], "src": d[1], "n": int(d[2:] or 0)})
+    ctl = m.group(1) == "K"
+    if ctl and (not deps or any(d["src"] != "t" for d in deps)) or not ctl and any(d["n"] for d in deps):
+        raise ValueError("bad flow %r" % tok)
+    return {"ctl": ctl, "deps": deps}
+
+
+def flow_token(fl):
+    return ("K:" if fl["ctl"] else "D:") + ",".join("%s%s%s" % (d["g"], d["src"], d["n"] or "") for d in fl["deps"])
+
+
+def holds(g, k):
+    return {"-": True, "1": True, "0": False, "p": k > 0, "z": k == 0}[g]
+
+
+def need_of(kind, k=1):
+    """Required inputs of a flow, JDF meaning: data flow = the first dep whose guard holds decides (1 iff it names a
+    task); control flow = one control per dep whose guard holds (the gather count if it has one)."""
+    fl = parse_flow(kind)
+    live = [d for d in fl["deps"] if holds(d["g"], k)]
+    if fl["ctl"]:
+        return sum(d["n"] or 1 for d in live)
+    return 1 if live and live[0]["src"] == "t" else 0
 
 
 def need(sc):
-    return sum(need_of(k) for k in sc["flows"])
+    return sum(need_of(f, sc.get("k", 1)) for f in sc["flows"])
 
 
 def flows_tla(sc):
-    return [{"k": "G", "g": int(k[1:])} if k[0] == "G" else {"k": k, "g": 0} for k in sc["flows"]]
+    return [parse_flow(f) for f in sc["flows"]]
+
+
+def threads_of(sc):
+    return sc["threads"] if "threads" in sc else [list(sc["ops"])]
 
 
 def scenario_file(sc, path):
+    thr = threads_of(sc)
     with open(path, "w") as f:
-        f.write("mode %s\nflows %s\nneed %d\nthreads %d\n" % (sc["mode"], " ".join(sc["flows"]), need(sc), len(sc["threads"])))
-        for t, ops in enumerate(sc["threads"]):
+        f.write("mode %s\nk %d\nflows %s\nneed %d\nthreads %d\n" % (sc["mode"], sc.get("k", 1), " ".join(flow_token(fl) for fl in flows_tla(sc)),
+                                                                  need(sc), len(thr)))
+        for t, ops in enumerate(thr):
             f.write("t %d %s\n" % (t, " ".join("%d:%d" % o for o in ops)))
 
 
 def mc(ctx, d, sc, mut="none", fuse=False, tag=""):
     n = len(sc["threads"])
     prog = {t + 1: [{"f": f, "i": i} for f, i in ops] for t, ops in enumerate(sc["threads"])}
-    consts = {"Mode": sc["mode"], "Flows": flows_tla(sc), "Thr": set(range(1, n + 1)), "Prog": prog, "Mut": mut,
-              "FuseBegin": fuse}
+    consts = {"Mode": sc["mode"], "Flows": flows_tla(sc), "K": sc.get("k", 1), "NeedExpected": need(sc),
+              "Thr": set(range(1, n + 1)), "Prog": prog, "Mut": mut, "FuseBegin": fuse}
     return mcgen.write_mc(d, sc["name"] + tag, "DepImpl", consts, invariants=("TypeOK", "ExactlyOnce", "NonNeg", "ReadyAfterAllBegun"),
                           properties=("Refines",))
 
@@ -180,6 +255,8 @@ def collect(ctx, exe, mode, sc, arg, kind, executions, extra=(), timeout=900):
     scenario_file(sc, scf)
     tr, meta = base + ".trace", base + ".meta"
     rc, out, err = ctx.run_cmd([exe, mode, scf, arg, tr, meta] + list(extra), timeout=timeout)
+    if rc == 3:                # the harness refused its input: an error of this check, not a behaviour of the code
+        raise tlc.TLCError("dep_replay %s %s: %s" % (mode, sc["name"], err[-300:]))
     exs = tracecheck.split_executions(tracecheck.read_ndjson(tr)) if os.path.exists(tr) else []
     if mode == "stress":
         exs = [p for e in exs for p in project_instances(e)]
@@ -225,9 +302,8 @@ def run(ctx):
     jobs = [lambda: ("check", None, "Ready", "Ready.cfg", tlc.check(ctx.spec("Dep"), "Ready", "Ready.cfg", workers=1)),
             lambda: job_check(byname["c4"], ("Begin", "CtrReadDeps", "CtrCas", "CtrDec")),
             lambda: job_check(byname["m4"], ("Begin", "MaskReadInDone", "MaskFetchOr")),
-            lambda: job_mut(C2, "store"), lambda: job_mut(byname["min3"], "noin")]
+            lambda: job_mut(C2, "store"), lambda: job_mut(byname["min3"], "noin"), lambda: job_mut(byname["mov2"], "scanon")]
     jobs += [(lambda sc=sc: job_graph(sc)) for sc in scen]
-    ctx.scratch
     with concurrent.futures.ThreadPoolExecutor(max_workers=2) as pool:
         results = list(pool.map(lambda j: j(), jobs))
     graphs = []
@@ -270,7 +346,7 @@ def run(ctx):
             ctx.divergences += 1
             ctx.sample({"divergence": {"scenario": sc["name"], "schedules": len(paths), "executed": len(metas)}}, limit=6)
         total_sched += len(paths)
-        info = {"name": sc["name"], "mode": sc["mode"], "flows": sc["flows"], "need": need(sc),
+        info = {"name": sc["name"], "mode": sc["mode"], "k": sc.get("k", 1), "flows": sc["flows"], "need": need(sc),
                 "model_paths_total": total, "replayed": len(paths), "exhaustive": exhaustive}
         if len(sc["threads"]) <= 3:
             # exhaustive exploration on the code itself, every interleaving at yield-point granularity
@@ -293,6 +369,23 @@ def run(ctx):
         collect(ctx, exe, "replay", sc, schedf, "random", executions)
     for sc in STRESS:
         collect(ctx, exe, "stress", sc, str(10 if ctx.quick else 100), "stress", executions, extra=[str(ctx.seed)])
+
+    # ---- every release order of a task instance, one release after the other ------------------------------------
+    for sc in PERMS:
+        metas = collect(ctx, exe, "perms", sc, "1000", "perms", executions)
+        n, full = len(sc["ops"]), len(sc["ops"]) == need(sc)
+        orders = [m for m in metas if "order" in m]
+        for m in orders:
+            want_ret = [0] * (n - 1) + [1 if full else 0]          # Ready.tla, sequential: the last required input answers ready
+            if m["ret"] != want_ret:
+                ctx.divergences += 1
+                ctx.sample({"divergence": {"scenario": sc["name"], "order": m["order"], "model_ret": want_ret, "real_ret": m["ret"]}}, limit=6)
+        last = metas[-1] if metas else {}
+        if len(orders) != math.factorial(n) or not last.get("exhaustive"):
+            ctx.divergences += 1
+            ctx.sample({"divergence": {"scenario": sc["name"], "orders": math.factorial(n), "executed": len(orders)}}, limit=6)
+        ctx.extra.setdefault("release_orders", []).append({"name": sc["name"], "mode": sc["mode"], "k": sc.get("k", 1), "flows": sc["flows"],
+                                                           "need": need(sc), "released": n, "orders": len(orders)})
 
     # ---- 4. verdict: trace validation -----------------------------------------------------------------------
     ctx.evaluations = len(executions)
